@@ -19,6 +19,9 @@ pub enum SubjectSrc {
     Custom(CustomPub),
     /// the `PublicKey` of a parsed CSR
     CsrPub(rcgen::PublicKey),
+    /// issuance through `CertificateSigningRequestParams::signed_by`: the CSR (DER) is parsed for every
+    /// evaluation (its `PublicKey` is not `Clone`) and the state's parameters replace the parsed ones
+    ViaCsr(Vec<u8>),
 }
 
 pub struct CustomPub {
@@ -102,6 +105,11 @@ fn issue(params: rcgen::CertificateParams, ctx: &Ctx) -> Result<Certificate, rcg
         (Some(i), SubjectSrc::Spki(s)) => params.signed_by(s, &i.cert, &i.key),
         (Some(i), SubjectSrc::Custom(c)) => params.signed_by(c, &i.cert, &i.key),
         (Some(i), SubjectSrc::CsrPub(c)) => params.signed_by(c, &i.cert, &i.key),
+        (Some(i), SubjectSrc::ViaCsr(der)) => {
+            let mut parsed = rcgen::CertificateSigningRequestParams::from_der(&der.clone().into())?;
+            parsed.params = params;
+            parsed.signed_by(&i.cert, &i.key)
+        }
     }
 }
 
@@ -237,6 +245,18 @@ pub fn outcome_for(prop: &str, ev: CertEval, refusal_expected: bool) -> Outcome 
     out.digest = ev.tbs.as_deref().map(explore::fnv).unwrap_or(0);
     out.findings = ev.findings.into_iter().filter(|f| relevant(prop, f)).collect();
     out
+}
+
+/// Issuer-signed context issuing through `CertificateSigningRequestParams::signed_by` (real requester key).
+#[cfg(feature = "crypto")]
+pub fn via_csr_ctx(zoo: &[ZooKey], kind: KeyKind, alg: Alg, issuer_dn: &DnSpec, issuer_kid: &KeyIdSpec) -> Ctx {
+    let z = zoo.iter().find(|z| z.kind == kind && z.format == KeyFormat::Pkcs8).unwrap();
+    let kp = rc_load(z, alg).unwrap();
+    let csr = rcgen::CertificateParams::default().serialize_request(&kp).unwrap();
+    let iraw = fake_pub(Alg::EcP256, 0x53);
+    let (ikp, log) = stub_key(Alg::EcP256, &iraw);
+    let issuer = make_issuer(issuer_dn, issuer_kid, &[], ikp, KeyPub { alg: Alg::EcP256, raw: iraw }).expect("issuer");
+    Ctx { label: format!("issued through CertificateSigningRequestParams::signed_by; requester {} {}", z.name, alg.name()), issuer: Some(issuer), subject: SubjectSrc::ViaCsr(csr.der().to_vec()), subject_pub: z.key_pub(alg), log: Some(log) }
 }
 
 /// Issuer-signed context whose subject key is the `PublicKey` of a CSR parsed by rcgen (real key: parsing verifies).
